@@ -130,7 +130,13 @@ def run_case(case, g, tier, res):
             install(dmod)
             del INSTANCES[:]
             blank = lambda n: " " * c.fresh_int(n, 0, 1).__index__()
-            if fam == "uniform":
+            uniform_float = fam == "uniform" and bool(c.fresh_bool("uniform_bounds_written_as_floats"))
+            if uniform_float:
+                # non-integer bounds: the code truncates them (reported as is); what is asserted here is only that the canonical text
+                # denotes the distribution the object samples from
+                ps = [c.fresh_real("p0", 1, 1e6), c.fresh_real("p1", 1, 1e6)]
+                c.add((ps[0] + 1 < ps[1]).e)
+            elif fam == "uniform":
                 ps = [c.fresh_int("p0", 1, 10**6), c.fresh_int("p1", 1, 10**6)]
                 c.add((ps[0] < ps[1]).e)
             else:
@@ -143,7 +149,7 @@ def run_case(case, g, tier, res):
             for i, p in enumerate(ps):
                 if i:
                     parts += [",", blank(f"b{i}")]
-                parts.append(Num(p, "int") if fam == "uniform" else Num(p, "float", style))
+                parts.append(Num(p, "int") if (fam == "uniform" and not uniform_float) else Num(p, "float", style))
             parts += [")", "|"]
             text = SymStr.of(*[p for p in parts if p != ""])
             via = c.fresh_int("via", 0, 1).__index__()
@@ -172,7 +178,7 @@ def run_case(case, g, tier, res):
             wrong = detail("parameters reach the sampler in another order / meaning")
             if fam == "gauss":
                 c.prove(And(obj.kw.get("loc") == ps[0], obj.kw.get("scale") == ps[1]) if set(obj.kw) == {"loc", "scale"} else False, lab, wrong)
-            elif fam == "uniform":
+            elif fam == "uniform" and not uniform_float:
                 c.prove(And(obj.kw.get("loc") == ps[0], obj.kw.get("scale") == ps[1] - ps[0]) if set(obj.kw) == {"loc", "scale"} else False, lab, wrong)
             elif fam == "poisson":
                 c.prove(obj.kw.get("mu") == ps[0] if set(obj.kw) == {"mu"} else False, lab, wrong)
@@ -182,6 +188,21 @@ def run_case(case, g, tier, res):
                 c.prove(And(kw.get("Mn") == ps[1], kw.get("z") * (ps[0] - ps[1]) == ps[1]) if set(kw) == {"z", "Mn"} else False, lab, wrong)
             elif fam == "log_normal":
                 c.prove(And(kw.get("M") == ps[0], kw.get("D") == ps[1]) if set(kw) == {"M", "D"} else False, lab, wrong)
+            # the canonical text denotes the distribution the object samples from: the object parsed from the print hands the
+            # same parameters to its sampler
+            try:
+                d2 = dmod.get_distribution(d.generate_string(True).strip("|"))
+                d2.draw_mw(rng)
+                obj2 = d2._distribution
+                rv2 = [x for x in obj2.calls if x[0] == "rvs"]
+                kw2 = dict(rv2[0][2]) if rv2 else {}
+                kw2.pop("random_state", None)
+                same_obj = set(obj.kw) == set(obj2.kw) and set(kw) == set(kw2)
+                same_obj = And(same_obj, *[obj.kw[k] == obj2.kw[k] for k in obj.kw], *[kw[k] == kw2[k] for k in kw]) if same_obj else False
+            except Exception as e:
+                core.reraise_if_harness(e)
+                same_obj = False
+            c.prove(same_obj, "the canonical text denotes the distribution the object samples from", detail("the object parsed from the canonical text samples with other parameters"))
             # interval probability uses the same parameters
             ra = mp.RememberAdd(0.0)
             ra += 10.0
@@ -292,6 +313,21 @@ def replay(rp, gb):
             bad.append("params")
         if fam == "log_normal" and (seen.get("M"), seen.get("D")) != (ps[0], ps[1]):
             bad.append("params")
+        # the object parsed from the canonical text samples with the same parameters
+        try:
+            d2 = dmod.get_distribution(str(d).strip("|"))
+            obj2 = d2._distribution
+            seen2 = {}
+            obj2.rvs = lambda *a, **kw: (seen2.update(kw), 1.0)[1]
+            d2.draw_mw(rng)
+            k1 = {k: v for k, v in seen.items() if k != "random_state"}
+            k2 = {k: v for k, v in seen2.items() if k != "random_state"}
+            if dict(getattr(obj, "kwds", {})) != dict(getattr(obj2, "kwds", {})) or k1 != k2:
+                bad.append(f"re-parse: {dict(getattr(obj, 'kwds', {}))} {k1} vs {dict(getattr(obj2, 'kwds', {}))} {k2}")
+        except Exception as e:
+            bad.append(f"re-parse raised {type(e).__name__}")
+        if "canonical text" in rp.get("what", "") or "parsed from the canonical" in rp.get("what", ""):
+            return any(b.startswith("re-parse") for b in bad), f"{t}: {bad}"
         return bool(bad), f"{t}: {bad}"
     if rp["kind"] == "draws":
         mol = gb.Molecule(rp["text"])
